@@ -193,6 +193,82 @@ def body_records(tier, rng, recs, meta, n0):
     return n
 
 
+def clip_records(tier, rng, res, recs, meta):
+    """PolygonClip.tla: every proper subset of half-planes TLC explores is replayed on the real intersect_halfplanes ->
+    order_points -> filter_unique_points pipeline under random similarity transforms (rounding plays the model's adversary),
+    in two half-plane orders; the exact polygon area comes from the integer configuration"""
+    import json, re
+    from fractions import Fraction as F
+    from distance3d.hydroelastic_contact import _halfplanes as HP, _tetrahedron_intersection as TI
+    jobs = [dict(spec_dir="hydro", module="PolygonClipMC", cfg="PolygonClip.cfg" if tier == "quick" else "PolygonClip6emit.cfg", workers=4, heap="2g", tag="clip_main"),
+            dict(spec_dir="hydro", module="PolygonClipMC", cfg="PolygonClip_asfound.cfg", workers=2, heap="1g", tag="clip_asfound")]
+    main, asf = tlc.run_many(jobs)
+    res.add_tlc(main); res.add_tlc(asf)
+    if main.invariant_violated:
+        res.violation("mc:PolygonClip", "ModelInvariant", f"TLC: {main.invariant_violated} violated on the clipping model of the library's design", {"tlc_tail": main.out[-3000:]})
+    elif not main.ok:
+        res.machinery("TLC PolygonClip failed:\n" + main.out[-2000:])
+    if not asf.invariant_violated:
+        res.machinery("the adversarial-rounding configuration of PolygonClip found no counterexample (vacuous model)")
+    cfgs = []
+    for m in re.finditer(r'<<"CLIP",\s*"((?:[^"\\]|\\.)*)">>', main.out, re.S):
+        cfgs.append(json.loads(re.sub(r"\s*\n\s*", "", m.group(1)).encode().decode("unicode_escape")))
+    res.coverage["clip_configurations"] = len(cfgs)
+    res.coverage["clip_with_boundary_candidates"] = sum(1 for c in cfgs if c["boundary"])
+    if not cfgs:
+        res.machinery("PolygonClip emitted no configurations")
+    lifts = 2 if tier == "quick" else 6
+    n = 0
+    for c in cfgs:
+        hs = [tuple(h) for h in c["hs"]]
+        # exact polygon: candidates that satisfy every half-plane, as rationals
+        pts = set()
+        for i in range(len(hs)):
+            for j in range(i + 1, len(hs)):
+                (a1, b1, c1), (a2, b2, c2) = hs[i], hs[j]
+                d = a1 * b2 - a2 * b1
+                if d == 0:
+                    continue
+                x, y = F(c1 * b2 - c2 * b1, d), F(a1 * c2 - a2 * c1, d)
+                if all(a * x + b * y <= cc for a, b, cc in hs):
+                    pts.add((x, y))
+        cx, cy = sum(p[0] for p in pts) / len(pts), sum(p[1] for p in pts) / len(pts)
+        ring = sorted(pts, key=lambda p: math.atan2(float(p[1] - cy), float(p[0] - cx)))
+        area = abs(sum(ring[k][0] * ring[(k + 1) % len(ring)][1] - ring[(k + 1) % len(ring)][0] * ring[k][1] for k in range(len(ring)))) / 2
+        for li in range(lifts):
+            sc = 10 ** rng.uniform(-1.5, 1.0)
+            th = rng.uniform(0, 2 * math.pi) if li else 0.0
+            t = np.array([rng.uniform(-1, 1), rng.uniform(-1, 1)]) * (rng.choice((0.0, 3.0, 40.0)) if li else 0.0)
+            R = np.array([[math.cos(th), -math.sin(th)], [math.sin(th), math.cos(th)]])
+            rows = []
+            for a, b, cc in hs:
+                nn = a * a + b * b
+                p = sc * (R @ (np.array([a, b], dtype=float) * cc / nn)) + t
+                dvec = (R @ np.array([-b, a], dtype=float)) * rng.choice((1.0, 0.37, 2.9))      # unnormalised, as make_halfplanes leaves them
+                rows.append([p[0], p[1], dvec[0], dvec[1]])
+            n += 1
+            rid = f"k{n}"
+            rec = {"id": rid, "kind": "clip", "exc": "none", "nverts": len(pts), "orderArea": 0, "modelArea": 0, "fits": True}
+            L2 = max(1.0, float(np.max(np.abs(np.array(rows)[:, :2])))) ** 2
+            try:
+                out = []
+                for order in (list(range(len(rows))), rng.sample(range(len(rows)), len(rows))):
+                    hp = np.ascontiguousarray(np.array([rows[k] for k in order], dtype=float))
+                    v = HP.intersect_halfplanes(hp)
+                    if len(v) >= 3:
+                        v = TI.filter_unique_points(TI.order_points(np.ascontiguousarray(v)))
+                    m = len(v)
+                    rec["fits"] = rec["fits"] and m <= 8
+                    fan = min(m, 8)
+                    out.append(0.5 * abs(sum(float((v[k, 0] - v[0, 0]) * (v[k + 1, 1] - v[0, 1]) - (v[k, 1] - v[0, 1]) * (v[k + 1, 0] - v[0, 0])) for k in range(1, fan - 1))) if fan >= 3 else 0.0)
+                rec["orderArea"] = ticks(abs(out[0] - out[1]), TOL * L2 / 8)
+                rec["modelArea"] = ticks(max(abs(o - float(area) * sc * sc) for o in out), TOL * L2 / 8)
+            except Exception as ex:
+                rec["exc"] = type(ex).__name__
+            recs.append(rec)
+            meta[rid] = {"tag": "clip", "halfplanes": [list(h) for h in hs], "scale": sc, "angle": th, "shift": t.tolist(), "exact_area": float(area)}
+
+
 def run(tier, seed):
     env.setup()
     rng = random.Random(seed)
@@ -209,10 +285,18 @@ def run(tier, seed):
         recs.append(pair_record(rid, t1, e1, t2, e2, E1, E2))
         meta[rid] = {"t1": np.asarray(t1).tolist(), "e1": np.asarray(e1).tolist(), "t2": np.asarray(t2).tolist(), "e2": np.asarray(e2).tolist(), "E": [E1, E2], "tag": tag}
     body_records(tier, rng, recs, meta, len(recs))
+    clip_records(tier, rng, res, recs, meta)
     byid = {r["id"]: r for r in recs}
     rejects = trace.judge(recs, "hydro", "TetContactTrace", "TetContactTrace.cfg", "c15", res)
-    for rid, clauses in sorted(rejects.items(), key=lambda kv: int(kv[0][1:])):
+    for rid, clauses in sorted(rejects.items(), key=lambda kv: (kv[0][0], int(kv[0][1:]))):
         m, rr = meta[rid], byid[rid]
+        if clauses == {"DRIFT_ClipConformsToModel"}:
+            # the implementation's polygon differs from the clipping model's although the property's own clauses hold:
+            # model drift, reported in the evidence, never a violation
+            res.coverage["drift"] += 1
+            res.coverage.setdefault("drift_samples", []).append({"meta": m, "record": rr})
+            continue
+        clauses = clauses - {"DRIFT_ClipConformsToModel"}
         res.violation(f"{m.get('tag', 'bodies')}:{'+'.join(sorted(clauses))}:{chash(m)}", "+".join(sorted(clauses)),
                       f"{str(m)[:300]} -> " + str({k: v for k, v in rr.items() if k not in ('id', 'kind')}), {"meta": m, "record": rr, "seed": seed})
     res.coverage["evaluations"] = len(recs)
